@@ -118,6 +118,20 @@ class Ctx:
                 lk = re.findall(r'last owner: (\w+)', m)
                 site = lk[0] if lk else site
             self.violation(v.get('cls', 'monitor'), site, m, r.scenario, r.flavour, meta)
+        qt = [e for e in r.events if e.get('e') == 'quiesce_timeout']
+        if qt and n == 0 and oc == 'ok':
+            if any(e.get('receiver_blocked') for e in qt):
+                # the receiver thread sat on a lock for the whole guard time (30 s): it is blocked, not slow
+                dump = next((e for e in r.events if e.get('e') == 'lockdump' and e.get('why') == 'receiver-blocked'), {})
+                rec = next((t for t in dump.get('threads', []) if t.get('role') == 1), {})
+                n += 1
+                self.violation('receiver-blocked', rec.get('wait') or 'lock', f'the receiver thread waited for {rec.get("wait")} for more than the quiescence guard; threads: {dump.get("threads")}',
+                               r.scenario, r.flavour, meta)
+            else:
+                # the logical quiescence condition was not reached within its generous wall-clock guard although nobody is blocked: the machine
+                # is overloaded; whatever the oracles would read from this run is not evidence
+                self.inconclusive.append('quiescence not reached within the wall-clock guard (overloaded machine?)')
+                n += 1
         if oc == 'hang':
             cyc = any(h.get('cycle') for h in r.by('hang'))
             if not any(v.get('cls') == 'deadlock' for v in r.viols()):
